@@ -4,7 +4,7 @@ from fractions import Fraction
 import lib, storelib as S, arithlib as A
 from lib import Result, model_call, run_sharded, e_fmt, e_f64, Reader
 
-RULE = ('pairs of formats with n_word<=24 (any signedness mix, n_frac -1..n_word+1) with values chosen adjacent to each other across the two formats (equal, one LSB apart, at the bounds), '
+RULE = ('pairs of formats with n_word<=24 (any signedness mix, n_frac -1..n_word+1, a share with fraction lengths -30..60 far apart between the operands) with values chosen adjacent to each other across the two formats (equal, one LSB apart, at the bounds), '
         'Fxp vs Fxp (scalars and arrays) and Fxp vs plain number (int and float); conversions get_val / astype(float) / float() / astype(int) / int() / bool() / raw() / uraw() for every code of every '
         'format with n_word<=6 (quick) / <=8 (thorough) and n_frac -1..n_word+1, plus random wider formats; the left object is reached by six histories (raw constructor; built from integers, resized, then written raw or through equal(); like= an integer object with n_frac=; built from a list of uint64 scalars; raw constructor followed by a REJECTED indexed write of an integer). Numbers also on the left (Python, np.float64, np.int64 / np.float32), array_op_method raw on the left object, and the six NumPy comparison functions called by name (default method). The six relations and the conversions are evaluated with exact rationals on the implementation output and '
         'compared with the model. Non-trivial = the two values differ by at most 2 LSB of the finer format (comparisons) / the code is non-zero (conversions); distinct by full input.')
@@ -46,7 +46,9 @@ def cmp_cases(rng, n):
     cases = []
     while len(cases) < n:
         def f():
-            nw = rng.choice([1, 2, 3, 4, 6, 8, 12, 16, 24, rng.randint(1, 24)]); return (rng.random() < 0.55, nw, rng.randint(-1, nw + 1))
+            nw = rng.choice([1, 2, 3, 4, 6, 8, 12, 16, 24, rng.randint(1, 24)])
+            if rng.random() < 0.15: return (rng.random() < 0.55, nw, rng.choice([-30, -12, nw + 8, 40, 41, 48, 60, rng.randint(-30, 60)]))    # (fraction lengths far from the word, far apart between the operands: every value is still an exact double)
+            return (rng.random() < 0.55, nw, rng.randint(-1, nw + 1))
         fxm, fym = f(), f()
         lx, hx = S.fmt_bounds(fxm[0], fxm[1]); ly, hy = S.fmt_bounds(fym[0], fym[1])
         cx = rng.choice([lx, hx, 0, rng.randint(lx, hx), rng.randint(lx, hx)])
@@ -56,6 +58,7 @@ def cmp_cases(rng, n):
         cy = rng.choice([math.floor(ty), math.ceil(ty), math.floor(ty) - 1, math.ceil(ty) + 1, ly, hy, rng.randint(ly, hy)])
         cy = max(ly, min(hy, cy))
         num = rng.choice([float(xv), float(xv) + float(Fraction(2) ** (-fxm[2])), float(xv) - 0.5, int(math.floor(xv)), int(math.floor(xv)) + 1, 0, rng.uniform(-4, 4)])
+        if abs(num) >= 2 ** 53 or (isinstance(num, float) and num != 0 and abs(num) < 2.0 ** -60): num = rng.choice([0, 1, -1.5])     # (the plain number must be exact in every carrier it is handed over in)
         cases.append({'x': list(fxm), 'cx': cx, 'y': list(fym), 'cy': cy, 'num': num, 'array': rng.random() < 0.25, 'build': rng.choice(BUILDS),
                       'array_op_method': rng.choice(['repr', 'repr', 'raw'])})     # (a configuration field of x: comparisons are about values in both settings)
     return cases
